@@ -11,6 +11,7 @@ mod operators;
 mod token;
 mod upgrade;
 mod probe;
+mod selfcheck;
 
 use binder::make_binder;
 use serde_json::{json, Value as J};
@@ -202,6 +203,7 @@ fn main() {
     match args[0].as_str() {
         "replay" => cmd_replay(&args[1..]),
         "drive" => binder::cmd_drive(&args[1..]),
+        "selfcheck" => selfcheck::run(),
         _ => {
             eprintln!("unknown command");
             std::process::exit(2);
